@@ -77,7 +77,22 @@ def gen_cases(tier, seed):
                                 cases.append({"id": cid, "sig": [edge, side, off, W, spelling, list(mask), signed], "edge": edge, "W": W, "side": side,
                                               "off": off, "spelling": spelling, "mask": list(mask), "signed": signed,
                                               "frac": rng.choice([0.0, 0.25, 0.9]) if spelling.startswith("frac") else 0.0})
+    # "any ... that is present": messages in which the element carrying a bound occurs more than once (several SubjectConfirmations,
+    # AuthnStatements, Assertions) and only one occurrence is out of range; reject side only
+    for elem, bound in MULTI:
+        for pos in ("first", "second", "middle-of-three"):
+            for W in ((0, 180) if tier == "quick" else ALLOWANCES):
+                for off in ((2, 100000) if tier == "quick" else OFFSETS):
+                    for other in MULTI_OTHER[elem]:
+                        cid = "multi-%s-%s-%s-%s-W%d-o%d" % (elem, bound, pos, other, W, off)
+                        cases.append({"id": cid, "sig": ["multi", elem, bound, pos, other, W, off], "kind": "multi", "elem": elem, "bound": bound, "pos": pos,
+                                      "other": other, "W": W, "off": off, "signed": 0})
     return cases
+
+
+MULTI = [("scd", "nooa"), ("scd", "nb"), ("authn", "session-nooa"), ("assertion", "cond-nooa"), ("assertion", "cond-nb")]
+# what the sibling occurrences look like: a comfortable copy of the same element, or (for confirmations) another method without data
+MULTI_OTHER = {"scd": ["bearer-ok", "holder-of-key", "sender-vouches-no-data"], "authn": ["ok"], "assertion": ["ok"]}
 
 
 def setup_worker(ctx):
@@ -114,7 +129,79 @@ def _pair(ctx, W, signed):
     return ctx.fedcache.get("pair", [W, signed], build)
 
 
+def run_multi(case, ctx):
+    sp, idp = _pair(ctx, case["W"], 0)
+    clock.install()
+    clock.set_now(T0)
+    W, off = case["W"], case["off"]
+    far = 10 ** 8 + 2 * W
+    xml = fed.issue(idp, {"givenName": ["Ann"]}, sign_response=False, sign_assertion=False)
+    d = xk.Doc(xml)
+    # comfortable everywhere first
+    cond = d.find(xk.SAML, "Conditions")[0]
+    d = d.set_attr(cond, "NotBefore", clock.iso(T0 - W - 5000))
+    d = d.set_attr(d.find(xk.SAML, "Conditions")[0], "NotOnOrAfter", clock.iso(T0 + W + far))
+    d = d.set_attr(d.find(xk.SAML, "SubjectConfirmationData")[0], "NotOnOrAfter", clock.iso(T0 + W + far))
+    d = d.set_attr(d.find(xk.SAML, "AuthnStatement")[0], "SessionNotOnOrAfter", clock.iso(T0 + W + far + 777))
+    elem, bound, pos, other = case["elem"], case["bound"], case["pos"], case["other"]
+    target = {"scd": "SubjectConfirmation", "authn": "AuthnStatement", "assertion": "Assertion"}[elem]
+    node = d.find(xk.SAML, target)[0]
+    good = d.standalone(node).decode("utf-8")
+
+    def variant(text, i):
+        v = xk.Doc(text)
+        if elem == "assertion":
+            v = v.set_attr(v.root, "ID", v.root.attrs["ID"] + "-%d" % i)
+        return v
+
+    bad = variant(good, 9)
+    if elem == "scd":
+        n = bad.find(xk.SAML, "SubjectConfirmationData")[0]
+        bad = bad.set_attr(n, "NotOnOrAfter" if bound == "nooa" else "NotBefore", clock.iso(T0 - W - off) if bound == "nooa" else clock.iso(T0 + W + off))
+    elif elem == "authn":
+        bad = bad.set_attr(bad.root, "SessionNotOnOrAfter", clock.iso(T0 - W - off))
+    else:
+        n = bad.find(xk.SAML, "Conditions")[0]
+        bad = bad.set_attr(n, "NotOnOrAfter" if bound == "cond-nooa" else "NotBefore", clock.iso(T0 - W - off) if bound == "cond-nooa" else clock.iso(T0 + W + off))
+    bad = bad.text()
+
+    def sibling(i):
+        v = variant(good, i)
+        if elem == "scd" and other != "bearer-ok":
+            if other == "holder-of-key":
+                v = v.set_attr(v.root, "Method", "urn:oasis:names:tc:SAML:2.0:cm:holder-of-key")
+            else:
+                v = v.set_attr(v.root, "Method", "urn:oasis:names:tc:SAML:2.0:cm:sender-vouches")
+                v = v.remove(v.find(xk.SAML, "SubjectConfirmationData")[0])
+        return v.text()
+    seq = {"first": [bad, sibling(1)], "second": [sibling(1), bad], "middle-of-three": [sibling(1), bad, sibling(2)]}[pos]
+    # control: the same shape with the in-range element in place of the out-of-range one - tells whether this shape is refused anyway
+    ctl = d.replace(d.find(xk.SAML, target)[0], "".join(variant(good, 9).text() if x is bad else x for x in seq)).text()
+    r0, e0 = fed.deliver(sp, ctl, dict(OUT))
+    shape_ok = r0 is not None
+    d = d.replace(d.find(xk.SAML, target)[0], "".join(seq))
+    doc = d.text()
+    try:
+        xk.Doc(doc)
+    except Exception as exc:
+        return {"outcome": "HARNESS-ERROR", "error": "multi document does not parse: %r" % (exc,)}
+    resp, exc = fed.deliver(sp, doc, dict(OUT))
+    accepted = resp is not None
+    clock.set_now(None)
+    viol = []
+    outcome = "accept" if accepted else "reject:" + (type(exc).__name__ if exc is not None else "None")
+    if accepted:
+        viol.append({"key": "C04/accepted-outside-validity-window:one-of-several-%s" % elem,
+                     "what": "response with several %s elements accepted although the %s one carries %s %d s beyond the edge (allowance %d, siblings: %s)" % (
+                         target, pos, bound, off, W, other), "detail": {"document": doc[:8000], "now": clock.iso(T0)}})
+    return {"outcome": outcome, "nontrivial": shape_ok or accepted, "violations": viol,
+            "counters": {"multi_cases": 1, "multi_rejected_by:" + (type(exc).__name__ if exc is not None else "accepted" if accepted else "None"): 1, "must_reject": 1,
+                         "multi_shape_accepted_when_all_in_range": int(shape_ok), "multi_shape_refused_anyway": int(not shape_ok)}}
+
+
 def run_case(case, ctx):
+    if case.get("kind") == "multi":
+        return run_multi(case, ctx)
     sp, idp = _pair(ctx, case["W"], case["signed"])
     clock.install()
     clock.set_now(T0)
